@@ -556,7 +556,7 @@ theorem invA_sdBody {s s' : St} (h : InvA s) (hs : s' ∈ sdBody s) : InvA s' :=
     · cases todo with
       | nil =>
         simp only [List.mem_singleton] at hs; subst hs
-        have := invA_sd h s.stopped s.running (.loop prev []) (by simp [hst]) (by simp) (fun x => x) (by simp [hcl])
+        have := invA_sd h s.stopped s.running (.waitLast prev) (by simp [hst]) (by simp) (fun x => x) (by simp [hcl])
         simpa using this
       | cons hd rest =>
         simp only [List.mem_singleton] at hs; subst hs
